@@ -159,6 +159,17 @@ CHECKS = {
             "disjoint buffers; equal tile bounds; dynamic sizes 1..3 outer tiles; non-overlapping dynamic strides; int-mode index "
             "arithmetic; known finding: dynamic strides collapsed into one 1-D transfer (blessed by upstream filecheck).",
             "bounded symbolic execution of emitted IR on a DMA transfer-log machine + z3 (LIA with concrete div/mod)", "3/C05"),
+    "C11": (OT,
+            "(A) memref-to-snax on allocs with none / tiled-strided layouts whose static steps and offset are symbolic holes and whose "
+            "dynamic outermost bounds are symbolic run-time sizes: the emitted size computation is evaluated by the IR interpreter and "
+            "z3 proves that every element's last byte lies below the allocated size. (B) the real StaticAllocs pattern on allocs with "
+            "symbolic sizes and a memory with symbolic start/capacity: z3 proves alignment, window and pairwise disjointness. (C) "
+            "minimalloc/auto mode with the absent solver replaced by a stub returning fresh symbolic offsets constrained only by "
+            "minimalloc's contract: the harness computes true live ranges from the IR (casts, subviews, nested uses) and z3 asks whether "
+            "contract-satisfying offsets can make two truly-live-together buffers overlap; deallocs must follow the last use.",
+            "minimalloc's own correctness assumed (contract stub); dynamic mode out of scope; lifetime programs sampled by VERIF_SEED "
+            "(2..3 buffers, nesting <= 2).",
+            "symbolic execution of the real passes (int proxies as IR constants) + symbolic IR interpreter + z3; nondeterministic contract stub for the external solver", "3/C11"),
 }
 
 NOT_YET = "check not built yet (work in progress in this round); no claim is made"
